@@ -93,6 +93,24 @@ Theorem C20_nocross_learn_nonvacuous :
     assigned_targets 5 tr = [(1, true)] /\ assigned_targets 6 tr = [(1, false)].
 Proof. exact nocross_fresh_nonvacuous. Qed.
 
+(* What the classifier of the run-time check rests on.  In a nocross history
+   (<= 32 controllers) the realtime side's pending ring (pq_rep: its slots from
+   pos_r on, psize of them) holds exactly the controllers the records imply
+   (pending_of, MidiSpec: offered controllers enter at the back, every
+   delivered midi-bind removes the front; `pending_before` of the plug-in,
+   compared with the model's value on every generated history), each once, and
+   they are: the controllers whose answering bind is on its way, then those
+   whose midi-use-CC is on its way - i.e. the controllers whose answer is
+   outstanding.  The class bind-crosses-use-cc is "this fails for the
+   controller concerned" (it is pending with no answer outstanding, or not
+   pending with an answer outstanding). *)
+Theorem C20_nocross_pending_partial : forall ports evs tr w U,
+  (length U <= 32)%nat -> incl (ccids evs) U -> Forall (fun x => 0 <= x) (ccids evs) ->
+  run ports world0 evs = (tr, Some w) -> nocross evs tr = true ->
+  pq_rep (pending (wr w)) (pending_of evs tr) /\ NoDup (pending_of evs tr) /\
+  exists A, pending_of evs tr = A ++ chN w /\ (length A <= length (chR w))%nat.
+Proof. exact nocross_pending. Qed.
+
 (* a history admitted by nocross and not by the earlier side condition: the
    bind of unMap p1 is sent while controller 5 is pending (its answer is ahead
    of that bind in the queue); records = the abstract specification's, 5 drives
@@ -104,6 +122,7 @@ Theorem C20_nocross_wider_nonvacuous :
     tr = arun cross_ports astate0 answered_pending_history /\
     snd (run cross_ports world0 (firstn 9 answered_pending_history)) = Some w9 /\
     psize (pending (wr w9)) = 1 /\
+    pending_of (firstn 9 answered_pending_history) (firstn 9 tr) = [5] /\
     nth_error tr 9 = Some [OB] /\
     assigned_targets 5 tr = [(0, true)] /\
     option_map msgs_of (nth_error tr 12) = Some [ {| maddr := 0; mvalue := VInt 65 |} ] /\
